@@ -584,8 +584,10 @@ impl Relations {
     /// Wrap and sort this relations field
     #[must_use]
     pub fn wrap_and_sort(self) -> Self {
+        // (an entry without relations, e.g. `Entry::new()`, is an empty entry)
         let mut entries = self
             .entries()
+            .filter(|e| e.relations().next().is_some())
             .map(|e| e.wrap_and_sort())
             .collect::<Vec<_>>();
         entries.sort();
